@@ -25,7 +25,7 @@ EXHAUSTIVE_SUBDOMAINS = []
 ASSUMPTIONS = ["pulse samples carry the amplitude plus a small share of the noise; low samples carry noise only", "regime R2 (noise between 0.2 x and 0.316 x the weakest pulse, i.e. 10-13.5 dB SNR) was the recorded finding eof-threshold-below-noise until fix b07124f; it is now judged as strictly as R1",
                "R1 = noise peak below the demodulator's own end-of-frame threshold (0.2 x strongest pulse of the frame)"]
 REQUIRED = ["r1_buffers", "r2_buffers", "second_buffer", "second_buffer_short_tail", "min_gap_after_short", "min_gap_after_long", "df17", "df20", "df21", "df4", "df5", "df11", "offset_even", "offset_odd",
-            "corrupted_df17_rejected", "pure_noise", "multi_frame", "same_frame_twice_in_a_row", "sessions", "session_buffer_11_or_later", "big_busy_first_buffer"]
+            "corrupted_df17_rejected", "pure_noise", "multi_frame", "same_frame_twice_in_a_row", "second_reader_alive", "sessions", "session_buffer_11_or_later", "big_busy_first_buffer"]
 
 
 def reader():
@@ -94,6 +94,12 @@ def m_buffer(ctx, case):
     rng = _r.Random(case["bseed"])
     buf, exp, info = build(rng, case)
     r = reader()
+    if case["bseed"] % 3 == 0:
+        # a second reader object is alive (another dongle) and has just processed a loud buffer of its own
+        r2 = reader()
+        r2.signal_buffer = [0.9 if (j // 7) % 2 else 0.5 for j in range(2400)]
+        call(r2._process_buffer)
+        ctx.hit("second_reader_alive")
     r.signal_buffer = list(buf)
     res = call(r._process_buffer)
     ctx.ev()
